@@ -300,6 +300,14 @@ def hBlockInfo : Handler := handler fun a => match a with
   | _ => none
 
 open Dask.MapBlocks in
+/-- `(alignfalse (args…))` ↦ `((sym (chunks…))…)` : `chunkss` of `blockwise(align_arrays=False)` -/
+def hAlignFalse : Handler := handler fun a => match a with
+  | [args] => do
+    let args ← (← args.toList?).mapM toAArg?
+    pure (.list ((alignFalseChunks args).map fun p => .list [SExp.ofNat p.1, SExp.ofNats p.2]))
+  | _ => none
+
+open Dask.MapBlocks in
 /-- `(loopdims max n)` -/
 def hLoopDims : Handler := handler fun a => match a with
   | [m, n] => do pure (SExp.ofNats (loopDims (← m.toNat?) (← n.toNat?)))
@@ -370,6 +378,7 @@ end HlgDrv
 def table : List (String × Handler) := [
   ("metachunks", HlgDrv.hMetaChunks), ("metablocks", HlgDrv.hMetaBlocks), ("rewrite", HlgDrv.hRewrite),
   ("mbplan", HlgDrv.hMbPlan), ("blockinfo", HlgDrv.hBlockInfo), ("loopdims", HlgDrv.hLoopDims),
+  ("alignfalse", HlgDrv.hAlignFalse),
   ("bshapes", HlgDrv.hBShapes), ("cbd", HlgDrv.hCbd), ("unify", HlgDrv.hUnify), ("argpos", HlgDrv.hArgPos),
   ("bdims", HlgDrv.hBdims), ("makedims", HlgDrv.hMakeDims), ("coordmap", HlgDrv.hCoordMap),
   ("dummies", HlgDrv.hDummies), ("argcoords", HlgDrv.hArgCoords), ("argcoordsspec", HlgDrv.hArgCoordsSpec),
